@@ -18,6 +18,7 @@ import (
 	"sync"
 	"testing"
 	"testing/synctest"
+	"time"
 
 	"github.com/pojntfx/panrpc/go/pkg/rpc"
 	"github.com/pojntfx/panrpc/go/pkg/verifhook"
@@ -187,7 +188,12 @@ func RunEp(t *testing.T, calls []EpCall, choose func(step int, v *EpView) (EpCho
 		ctxs[0], cancels[0] = context.WithCancel(context.Background())
 		for _, c := range calls {
 			if _, ok := ctxs[c.Ctx]; !ok {
-				ctxs[c.Ctx], cancels[c.Ctx] = context.WithCancel(context.Background())
+				if c.Ctx == 3 {
+					// context 3 ends by its deadline (fake time of the bubble): "cancel 3" lets the time pass
+					ctxs[c.Ctx], cancels[c.Ctx] = context.WithTimeout(context.Background(), time.Hour)
+				} else {
+					ctxs[c.Ctx], cancels[c.Ctx] = context.WithCancel(context.Background())
+				}
 			}
 		}
 
@@ -455,24 +461,29 @@ func RunEp(t *testing.T, calls []EpCall, choose func(step int, v *EpView) (EpCho
 					e = fmt.Sprintf("m%d", c.E)
 				}
 				b, _ := json.Marshal(map[string]any{"call": id, "value": c.V, "err": e})
-				resIn <- readResult{frame: b}
+				if !trySend(resIn, readResult{frame: b}) {
+					return false
+				}
 			case "bad-res":
 				if !view.loopReading("resloop") {
 					return false
 				}
-				resIn <- readResult{frame: json.RawMessage(`{"call": 5, "value": `)}
+				if !trySend(resIn, readResult{frame: json.RawMessage(`{"call": 5, "value": `)}) {
+					return false
+				}
 			case "fail-res":
 				if !view.loopReading("resloop") {
 					return false
 				}
-				resIn <- readResult{err: fmt.Errorf("inj%d", c.N)}
+				if !trySend(resIn, readResult{err: fmt.Errorf("inj%d", c.N)}) {
+					return false
+				}
 			case "deliver-req":
 				if !view.loopReading("reqloop") {
 					return false
 				}
 				h.mu.Lock()
 				n := h.nreq
-				h.nreq++
 				h.mu.Unlock()
 				var fn string
 				var args []any
@@ -502,23 +513,36 @@ func RunEp(t *testing.T, calls []EpCall, choose func(step int, v *EpView) (EpCho
 					rawArgs = append(rawArgs, x)
 				}
 				b, _ := json.Marshal(map[string]any{"call": fmt.Sprintf("r%d", n), "function": fn, "args": rawArgs})
-				reqIn <- readResult{frame: b}
+				if !trySend(reqIn, readResult{frame: b}) {
+					return false
+				}
+				h.mu.Lock()
+				h.nreq++
+				h.mu.Unlock()
 			case "bad-req":
 				if !view.loopReading("reqloop") {
 					return false
 				}
-				reqIn <- readResult{frame: json.RawMessage(`[1, 2`)}
+				if !trySend(reqIn, readResult{frame: json.RawMessage(`[1, 2`)}) {
+					return false
+				}
 			case "fail-req":
 				if !view.loopReading("reqloop") {
 					return false
 				}
-				reqIn <- readResult{err: fmt.Errorf("inj%d", c.N)}
+				if !trySend(reqIn, readResult{err: fmt.Errorf("inj%d", c.N)}) {
+					return false
+				}
 			case "cancel":
 				if view.cancelled[c.N] || cancels[c.N] == nil {
 					return false
 				}
 				view.cancelled[c.N] = true
-				cancels[c.N]()
+				if c.N == 3 {
+					time.Sleep(2 * time.Hour) // fake time: the deadline of context 3 passes
+				} else {
+					cancels[c.N]()
+				}
 			case "arm":
 				h.mu.Lock()
 				h.faults[c.W] = c.N
@@ -596,6 +620,16 @@ func RunEp(t *testing.T, calls []EpCall, choose func(step int, v *EpView) (EpCho
 		}
 	})
 	return res
+}
+
+// trySend hands a read result to a reader loop that is blocked in its read; false = nobody is reading
+func trySend(ch chan readResult, r readResult) bool {
+	select {
+	case ch <- r:
+		return true
+	default:
+		return false
+	}
 }
 
 func errText(err error) string {
@@ -716,6 +750,14 @@ func RandomEpChooser(r *rand.Rand, calls []EpCall, maxSteps int, faultRate int) 
 				opts = append(opts, EpChoice{Env: "deliver-req", F: f, V: 50 + nreq, E: 1 + r.Intn(3)})
 				if r.Intn(100) < faultRate {
 					opts = append(opts, EpChoice{Env: "bad-req"}, EpChoice{Env: "fail-req", N: 1 + r.Intn(3)})
+				}
+			}
+		}
+		if faultRate == 0 && r.Intn(100) < 14 {
+			// fault-free workloads still cancel individual calls (never the link), at any moment incl. before the call starts
+			for c := 1; c <= 3; c++ {
+				if !v.cancelled[c] {
+					opts = append(opts, EpChoice{Env: "cancel", N: c})
 				}
 			}
 		}
